@@ -223,9 +223,10 @@ def hasDupBegin : List Span → Bool
   | s :: r => r.any (fun x => x.b == s.b) || hasDupBegin r
 
 def renderDetail (h : Heap) (src : List Nat) (offset : Nat) (spans : List Span) (ret : String) : Res String :=
-  if spans.any (fun s => s.b < 0 || s.e < 0) then .panic "slice bounds out of range@makeDetailStr"
   -- sort.Sort is not stable beyond 12 elements: with equal Begins the order (hence the grouping) is pdqsort's business
-  else if spans.length > 12 && hasDupBegin spans then .ok "≈sort≈" else
+  if spans.length > 12 && hasDupBegin spans then .ok "≈sort≈" else
+  -- spans outside the parsed text take no part (negative ends here, the rest of the test in `makeDetail`)
+  let spans := spans.filter (fun s => 0 ≤ s.b && 0 ≤ s.e)
   match DS.Detail.makeDetail src offset (spans.map (spanToDetail h)) (DS.Detail.utf8 ret) with
   | some out => .ok (bytesToString out)
   | none => .panic "slice bounds out of range@makeDetailStr"
